@@ -23,7 +23,8 @@ class Helper final : public Counter<ObjectT, DefaultDeleter> {
   }
 
   std::size_t GetRef() noexcept final {
-    return this->Get();
+    // acquire: who sees itself as the last owner moves the value out and must see every earlier reader's accesses
+    return this->Get(std::memory_order_acquire);
   }
 };
 
